@@ -58,6 +58,9 @@ func Gen(t *rapid.T) *Case {
 		for j := 0; j < n; j++ {
 			ops = append(ops, genOp(t, pool, nt))
 		}
+		if i == 0 && rapid.IntRange(0, 3).Draw(t, "shutdown") == 0 {
+			ops = append(ops, Op{K: "shutdown"})
+		}
 		c.Goroutines = append(c.Goroutines, ops)
 	}
 	// nested scripts for some subscribed handlers, filters and hooks
